@@ -139,6 +139,8 @@ Holds(q, root, m) ==
     [] q.k = "or"    -> Holds(q.l, root, m) \/ Holds(q.r, root, m)
     [] q.k = "paren" -> Holds(q.q, root, m)
     [] q.k = "re"    -> LET a == OpVal(q.l, root, m) IN a.ok /\ a.v.t = "str" /\ ReMatch(q.re, a.v.s)
+    [] q.k = "ret"   -> LET a == OpVal(q.l, root, m) IN          \* regex whose match table was recorded from Go's regexp
+                        a.ok /\ a.v.t = "str" /\ \E i \in 1..Len(q.tab.strs) : q.tab.strs[i] = a.v.s /\ q.tab.ms[i]
     [] q.k = "cmp"   ->
         CASE q.op = "==" -> EqHolds(q.l, q.r, root, m)
           [] q.op = "!=" -> ~EqHolds(q.l, q.r, root, m)
@@ -241,7 +243,7 @@ DetQNest(q, doc) ==
   CASE q.k \in {"and", "or"} -> DetQNest(q.l, doc) /\ DetQNest(q.r, doc)
     [] q.k = "paren" -> DetQNest(q.q, doc)
     [] q.k \in {"exist", "not"} -> DetSteps(q.p.steps, doc)
-    [] q.k = "re" -> DetSteps(q.l.steps, doc)
+    [] q.k \in {"re", "ret"} -> DetSteps(q.l.steps, doc)
     [] q.k = "cmp" -> (q.l.k = "lit" \/ DetSteps(q.l.steps, doc)) /\ (q.r.k = "lit" \/ DetSteps(q.r.steps, doc))
 DetSteps(steps, doc) ==
   \A i \in 1..Len(steps) : steps[i].k = "filter" =>
